@@ -3,6 +3,7 @@ import SLModel.Core.CursorBytes
 import SLModel.Core.PlanLeaf
 import SLModel.Core.Script
 import SLModel.Core.Msm
+import SLModel.Core.RescoreDrop
 open Lean
 namespace SL.Drv.C16
 open SL.Drv
@@ -223,6 +224,20 @@ def msmOp (req : Json) : Except String Json := do
     | .err => Json.mkObj [("cls", "error")]
     | .panic => Json.mkObj [("cls", "panic")]
 
+/-! ### rescore: dropping rejected window hits -/
+
+/-- `{"op":"rescore_drop","n":<hits>,"remove":[idx…]}` → the surviving indices -/
+def rescoreDropOp (req : Json) : Except String Json := do
+  let n ← getNat req "n"
+  let rm ← natList (← req.getObjVal? "remove")
+  let hits := List.range n
+  let unsorted : Json := match SL.RescoreDrop.dropUnsorted hits rm with
+    | some k => natsToJson k
+    | none => Json.null
+  return match SL.RescoreDrop.dropRejected hits rm with
+    | some k => Json.mkObj [("cls", "ok"), ("kept", natsToJson k), ("unsorted_variant", unsorted)]
+    | none => Json.mkObj [("cls", "panic"), ("unsorted_variant", unsorted)]
+
 def handle (req : Json) : Except String Json := do
   let op ← getStr req "op"
   match op with
@@ -230,6 +245,7 @@ def handle (req : Json) : Except String Json := do
   | "plan" => planOp req
   | "script" => scriptOp req
   | "msm" => msmOp req
+  | "rescore_drop" => rescoreDropOp req
   | _ => throw s!"C16: unknown op {op}"
 
 end SL.Drv.C16
